@@ -583,6 +583,11 @@ def init_dataclass(
                     key = transformer.to_str(key)
                 _data[key] = val
             data = _data
+        else:
+            for key in data:
+                if not isinstance(key, str):
+                    # would otherwise surface as "keywords must be strings" from the generated __init__
+                    raise TypeError(f"invalid key: {repr(key)} for {cls}, keys must be str")
     except Exception as e:
         raise exc.ParseError(type=cls, value=data, origin_exc=e) from e
 
